@@ -510,6 +510,39 @@ def hostile_ods_documents(report):
         core.cleanup(folder)
 
 
+def codec_writers(report):
+    """
+    Every encoding name of the hostile pool that a CID accepts, as target encoding of a validating writer: rows with text the
+    codec may refuse (non-ASCII, empty labels of idna, ...) are written or refused with a data error.
+    """
+    import tempfile
+    import cutplace
+    from cutplace import errors, validio
+    folder = core.workdir("c10codec")
+    try:
+        for name in HOSTILE["codecName"] + ["ascii", "latin-1", "cp1252", "utf-8", "utf-16", "iso2022_jp", "big5", "cp037"]:
+            for fmt_rows in ([["D", "Format", "delimited"]], [["D", "Format", "fixed"], ["D", "Line delimiter", "lf"]]):
+                cid = cutplace.Cid()
+                try:
+                    cid.read("cid", fmt_rows + [["D", "Encoding", name], ["F", "a", "", "", "4" if fmt_rows[0][2] == "fixed" else ""]])
+                except errors.InterfaceError:
+                    continue
+                for text in ("abcd", "a..b", ".", "\u00e4bcd", "\u20ac", "\u540d\u524d", "a\udc80b"):
+                    report.replayed += 1
+                    path = os.path.join(folder, "out.txt")
+                    try:
+                        with validio.Writer(cid, path) as writer:
+                            writer.write_row([text])
+                    except errors.DataError:
+                        pass
+                    except Exception as error:  # noqa
+                        report.violation("c10", {"codec": name, "format": fmt_rows[0][2], "text": text}, "written or DataError", type(error).__name__,
+                                         "%s writer with encoding %r, row [%r]: lets escape %s: %s" % (
+                                             fmt_rows[0][2], name, text, type(error).__name__, str(error)[:120]))
+    finally:
+        core.cleanup(folder)
+
+
 def unusual_streams(report):
     """Data handed over as stream objects whose `name` is no text (temporary files) or that have none: rows and data errors
     as for any other stream, and the text of an error can be built."""
@@ -702,6 +735,7 @@ def run(tier, report):
     malformed_text_containers(report)
     hostile_ods_documents(report)
     unusual_streams(report)
+    codec_writers(report)
     report.notes["hostile_spreadsheet_cells"] = "%d hostile data cells were also stored in real .xlsx / .ods files and read through " \
                                                "cutplace.rows (both modes) and the command line" % len(
         [1 for vec, _ in jobs if vec["fmt"] in ("excel", "ods") and any(t["where"] == "data" for t in vec["targets"])])
